@@ -163,6 +163,9 @@ namespace sqf::runtime
                 return result::ok;
             case behavior::result::exchange:
                 m_instruction_set = m_error_behavior->get_instruction_set(*this);
+                // The handler block took over and is not its own handler: whatever it throws or
+                // raises belongs to the handlers further out.
+                m_error_behavior = {};
                 seek(0, ::sqf::runtime::frame::seekpos::start);
 #ifdef DF__SQF_RUNTIME__ASSEMBLY_DEBUG_ON_EXECUTE
 
